@@ -162,110 +162,272 @@ def recover (img : Image) : Option Recovered :=
     | none => none
   | _ => none
 
-/-! ### the monitor: ordering obligations, checked event by event -/
+/-! ### the monitor: ordering obligations, checked event by event
+
+  The checks are Boolean functions of the world before (`preOk`) / after (`postOk`) the event, so that
+  `Conforms` is decidable and the proofs (Lemmas/Disk.lean, Props/C02|C03|C05) can use them directly;
+  `Mon.explain*` only produce the diagnostic text.
+
+  Obligations (each is needed by a proof step; see the report / the negative examples in Props/C02.lean):
+   O1   ack b: b's record is in an existing log, CURRENT exists; for sync additionally: the record is below the
+        log's fsynced count and every crash image has a usable CURRENT (`established`).
+   O2   append of an edit to a MANIFEST: every table it names is present, non-empty, complete and fsynced with the
+        recorded size; the log number does not decrease within a MANIFEST.
+   O3   unlink of a log / MANIFEST: no candidate *whose directory already contains every earlier directory operation*
+        (`lastCandidates`) still needs it (directory operations persist in issue order, so crash images with an
+        older directory still contain the file).  unlink of a table: no candidate at all names it.
+        `Mon.okDel` / `ConformsStrict` record the stricter rule "no candidate at all needs the log", which is what
+        "unsynced writes are durable once their log was deleted" needs — and which lcdb's `ldb_open` does NOT meet
+        (it unlinks the replayed logs right after the CURRENT rename, without an fsync in between).
+   O4   rename: only `<n>.dbtmp` → CURRENT; afterwards CURRENT is a complete fsynced pointer to a fully fsynced
+        MANIFEST with a log number, all of whose tables are present and complete, and whose log number is not below
+        that of any version a crash could still recover.
+   W    write-once / naming discipline: CURRENT is never created, appended to or unlinked directly; no file name is
+        created twice; log numbers increase; tables and pointer files are not appended to after their fsync;
+        a batch id is appended once, to the newest existing log. -/
 
 structure Mon where
   w : World := World.empty
   logOf : List (Nat × Nat) := []        -- batch id ↦ log number it was appended to
   ok : Bool := true
   why : String := ""
+  /-- stricter, separate verdict (not part of `Conforms`): every log was unlinked only when *no* crash image
+      at all (including those in which an earlier, not yet fsynced CURRENT switch is lost) could still need it.
+      Needed only for "unsynced writes are durable once their log was deleted". -/
+  okDel : Bool := true
   deriving Repr
 
 def bodyOf (w : World) (f : FName) : Option Body := (lookup w.dir f).bind fun id => w.bodies[id]?
 
-/-- every (directory, version) pair a crash right now could make recovery start from: the directory after any
-    admissible number of directory operations, CURRENT as found there (it must be a complete pointer),
-    the MANIFEST it names cut at any admissible record count.  `none` entries mean "recovery would fail there". -/
+/-- the directory a crash finds when exactly the first `j` directory operations persisted -/
+def dirAt (w : World) (j : Nat) : List (FName × Nat) := (w.dirOps.take j).foldl applyDirOp []
+
+/-- every (directory, version) pair a crash could make recovery start from when exactly `j` directory operations
+    persisted: CURRENT as found there (it must be a complete pointer), the MANIFEST it names cut at any
+    admissible record count.  `none` entries mean "recovery would fail there". -/
+def candidatesAt (w : World) (j : Nat) : List (Option (List (FName × Nat) × AVersion)) :=
+  let dir := dirAt w j
+  match (lookup dir .current).bind (fun id => w.bodies[id]?) with
+  | none => [none]
+  | some cb =>
+    -- every admissible prefix of CURRENT; only the complete pointer is usable
+    (List.range (cb.recs.length + 1 - cb.synced)).flatMap fun dc =>
+      match cb.recs.take (cb.synced + dc) with
+      | [.ptr m] =>
+        match (lookup dir (.manifest m)).bind (fun id => w.bodies[id]?) with
+        | none => [none]
+        | some mb =>
+          (List.range (mb.recs.length + 1 - mb.synced)).map fun dm =>
+            some (dir, versionOf (mb.recs.take (mb.synced + dm)))
+      | _ => [none]
+
+/-- all candidates: the directory after any admissible number of directory operations -/
 def candidates (w : World) : List (Option (List (FName × Nat) × AVersion)) :=
-  (List.range (w.dirOps.length + 1 - w.dirSynced)).flatMap fun d =>
-    let j := w.dirSynced + d
-    let dir := (w.dirOps.take j).foldl applyDirOp []
-    match (lookup dir .current).bind (fun id => w.bodies[id]?) with
-    | none => [none]
-    | some cb =>
-      -- every admissible prefix of CURRENT; only the complete pointer is usable
-      (List.range (cb.recs.length + 1 - cb.synced)).flatMap fun dc =>
-        match cb.recs.take (cb.synced + dc) with
-        | [.ptr m] =>
-          match (lookup dir (.manifest m)).bind (fun id => w.bodies[id]?) with
-          | none => [none]
-          | some mb =>
-            (List.range (mb.recs.length + 1 - mb.synced)).map fun dm =>
-              some (dir, versionOf (mb.recs.take (mb.synced + dm)))
-        | _ => [none]
+  (List.range (w.dirOps.length + 1 - w.dirSynced)).flatMap fun d => candidatesAt w (w.dirSynced + d)
+
+/-- the candidates whose directory is the current one.  Directory operations persist in issue order, so an
+    unlink issued now can only show up in crash images that contain every earlier directory operation:
+    these are the candidates an unlink has to respect. -/
+def lastCandidates (w : World) : List (Option (List (FName × Nat) × AVersion)) := candidatesAt w w.dirOps.length
 
 /-- has a database been made durable (some candidate exists and every candidate is usable)? -/
 def established (w : World) : Bool := (candidates w).all (·.isSome)
 
 def fail (m : Mon) (why : String) : Mon := if m.ok then { m with ok := false, why := why } else m
 
-/-- O1..O5 of DESIGN.md appendix D as preconditions of the events they constrain -/
-def Mon.check (m : Mon) : Ev → Mon
+/-- was a file of that name ever created? (file numbers are never reused) -/
+def created (w : World) (f : FName) : Bool := w.dirOps.any fun | .create f' _ => f' == f | _ => false
+
+/-- the numbers of all log files created so far, in creation order -/
+def createdLogs (ops : List DirOp) : List Nat := ops.filterMap fun | .create (.log n) _ => some n | _ => none
+
+def logOfLookup (logOf : List (Nat × Nat)) (b : Nat) : Option Nat := (logOf.find? (fun p => p.1 == b)).map (·.2)
+
+/-- a table a version names is present in the directory, non-empty, complete and fsynced -/
+def tableOk (w : World) (p : Nat × Nat) : Bool :=
+  match bodyOf w (.table p.1) with
+  | some body => decide (1 ≤ p.2) && body.recs.length == p.2 && body.synced == p.2
+  | none => false
+
+/-- log numbers recorded in one MANIFEST never go backwards (version_set.c:1293 asserts the same) -/
+def logNumMono (old new : Option Nat) : Bool :=
+  match old, new with
+  | some a, some b => decide (a ≤ b)
+  | _, _ => true
+
+abbrev Cand? := Option (List (FName × Nat) × AVersion)
+
+/-- the candidate is usable and its version has retired log `n` -/
+def candLogBelow (n : Nat) : Cand? → Bool
+  | some (_, v) => (match v.logNum with | some ln => decide (n < ln) | none => false)
+  | none => false
+/-- the candidate's version does not name table `t` -/
+def candNoTable (t : Nat) : Cand? → Bool
+  | some (_, v) => !v.tables.any (fun p => p.1 == t)
+  | none => true
+/-- the candidate's CURRENT does not name MANIFEST `k` -/
+def candNotManifest (w : World) (k : Nat) : Cand? → Bool
+  | some (dir, _) => (match (lookup dir .current).bind (fun id => w.bodies[id]?) with
+                      | some cb => !(cb.recs.contains (.ptr k))
+                      | none => true)
+  | none => true
+/-- the candidate's log number is at most `ln` -/
+def candLogLe (ln : Nat) : Cand? → Bool
+  | some (_, v) => (match v.logNum with | some l => decide (l ≤ ln) | none => true)
+  | none => true
+
+/-- O1..O5 of DESIGN.md appendix D as preconditions of the events they constrain (pure Boolean part) -/
+def preOk (w : World) (logOf : List (Nat × Nat)) : Ev → Bool
   | .ack b sync =>
-    -- O1 / O1': the batch's record was written (and, for sync, fsynced afterwards) to a log before the ack
-    match (m.logOf.find? (fun p => p.1 == b)).map (·.2) with
+    -- O1 / O1': the batch's record was written (and, for sync, fsynced afterwards) to a log before the ack,
+    -- and the database exists (CURRENT is there; for sync: in every crash image)
+    match logOfLookup logOf b with
+    | some n =>
+      match bodyOf w (.log n) with
+      | some body =>
+        body.recs.contains (.batch b) && (bodyOf w .current).isSome &&
+          (!sync || ((body.recs.take body.synced).contains (.batch b) && established w))
+      | none => false
+    | none => false
+  | .create f =>
+    -- CURRENT is only ever installed by rename; file names (numbers) are never reused; log numbers increase
+    f != .current && !created w f &&
+      (match f with
+       | .log n => (createdLogs w.dirOps).all (fun n' => decide (n' < n))
+       | _ => true)
+  | .append .current _ => false
+  | .append (.table t) _ =>
+    -- tables and pointer files are write-once: nothing is appended after the (single) fsync
+    (match bodyOf w (.table t) with | some body => body.synced == 0 | none => true)
+  | .append (.tmp k) _ =>
+    (match bodyOf w (.tmp k) with | some body => body.synced == 0 | none => true)
+  | .append (.manifest k) (.edit e) =>
+    -- O2: every table the edit names is complete on disk (fsynced, with the size the edit records);
+    --     the log number never decreases within a MANIFEST
+    e.newTables.all (tableOk w) &&
+      (match bodyOf w (.manifest k) with
+       | some mb => logNumMono (versionOf mb.recs).logNum e.logNum
+       | none => true)
+  | .append (.log n) (.batch b) =>
+    -- a batch id is appended once, to an existing log, which is the newest log
+    (logOfLookup logOf b).isNone && (bodyOf w (.log n)).isSome &&
+      (createdLogs w.dirOps).all (fun n' => decide (n' ≤ n))
+  | .append _ _ => true
+  | .rename a b =>
+    -- the only rename is `<n>.dbtmp` → CURRENT
+    b == .current && (match a with | .tmp _ => true | _ => false) && (bodyOf w a).isSome
+  | .unlink .current => false
+  | .unlink (.log n) =>
+    -- O3: a log may go only when no version a crash that contains the unlink could fall back to still needs it
+    (lastCandidates w).all (candLogBelow n)
+  | .unlink (.table t) => (candidates w).all (candNoTable t)
+  | .unlink (.manifest k) => (lastCandidates w).all (candNotManifest w k)
+  | _ => true
+
+def Mon.pre (m : Mon) (e : Ev) : Bool := Lcdb.Disk.preOk m.w m.logOf e
+
+/-- diagnostic for a failed precondition -/
+def Mon.explain (m : Mon) : Ev → String
+  | .ack b sync =>
+    match logOfLookup m.logOf b with
     | some n =>
       match bodyOf m.w (.log n) with
       | some body =>
-        let idx := body.recs.idxOf (.batch b)
-        if idx ≥ body.recs.length then fail m s!"ack of batch {b} whose record is not in log {n}"
-        else if sync && idx ≥ body.synced then fail m s!"sync ack of batch {b} before its log record was fsynced"
-        else if sync && !established m.w then fail m s!"sync ack of batch {b} while a crash could still find no usable CURRENT/MANIFEST"
-        else m
-      | none => fail m s!"ack of batch {b} whose log {n} no longer exists"
-    | none => fail m s!"ack of batch {b} that was never appended to a log"
-  | .create (.table t) =>
-    -- file numbers are never reused for tables
-    if m.w.dirOps.any (fun | .create (.table t') _ => t' == t | _ => false) then fail m s!"table number {t} created twice" else m
-  | .create (.log n) =>
-    if m.w.dirOps.any (fun | .create (.log n') _ => n' == n | _ => false) then fail m s!"log number {n} created twice" else m
-  | .append (.manifest _) (.edit e) =>
-    -- O2: every table the edit names is complete on disk (fsynced, with the size the edit records)
-    if e.newTables.all (fun (t, size) => match bodyOf m.w (.table t) with
-        | some body => body.recs.length == size && body.synced == size
-        | none => false) then m
-    else fail m "MANIFEST edit names a table that is not fully written and fsynced"
-  | .unlink (.log n) =>
-    -- O3: a log may go only when no version a crash could fall back to still needs it
-    if (candidates m.w).all (fun | some (_, v) => (match v.logNum with | some ln => decide (n < ln) | none => false) | none => false) then m
-    else fail m s!"log {n} unlinked while a version that a crash could recover still needs it"
-  | .unlink (.table t) =>
-    if (candidates m.w).all (fun | some (_, v) => !v.tables.any (fun p => p.1 == t) | none => true) then m
-    else fail m s!"table {t} unlinked while a version that a crash could recover still names it"
-  | .unlink (.manifest k) =>
-    if (candidates m.w).all (fun | some (dir, _) => (match (lookup dir .current).bind (fun id => m.w.bodies[id]?) with
-                                                    | some cb => !(cb.recs.contains (.ptr k))
-                                                    | none => true)
-                                 | none => true) then m
-    else fail m s!"MANIFEST {k} unlinked while a CURRENT that a crash could recover names it"
-  | _ => m
+        if !body.recs.contains (.batch b) then s!"ack of batch {b} whose record is not in log {n}"
+        else if (bodyOf m.w .current).isNone then s!"ack of batch {b} before CURRENT exists"
+        else if sync && !(body.recs.take body.synced).contains (.batch b) then s!"sync ack of batch {b} before its log record was fsynced"
+        else s!"sync ack of batch {b} while a crash could still find no usable CURRENT/MANIFEST"
+      | none => s!"ack of batch {b} whose log {n} no longer exists"
+    | none => s!"ack of batch {b} that was never appended to a log"
+  | .create f =>
+    if f == .current then "CURRENT created directly (it must be installed by rename)"
+    else if created m.w f then s!"file {repr f} created twice"
+    else s!"log file {repr f} created with a number that is not larger than every earlier log number"
+  | .append .current _ => "append to CURRENT"
+  | .append (.table t) _ => s!"append to table {t} after it was fsynced"
+  | .append (.tmp k) _ => s!"append to {k}.dbtmp after it was fsynced"
+  | .append (.manifest k) (.edit e) =>
+    if !e.newTables.all (tableOk m.w) then s!"MANIFEST {k}: edit names a table that is not fully written and fsynced"
+    else s!"MANIFEST {k}: edit lowers the log number"
+  | .append (.log n) (.batch b) =>
+    if (logOfLookup m.logOf b).isSome then s!"batch {b} appended twice"
+    else if (bodyOf m.w (.log n)).isNone then s!"batch {b} appended to log {n} which does not exist"
+    else s!"batch {b} appended to log {n} which is not the newest log"
+  | .rename a b => s!"unexpected rename {repr a} -> {repr b} (only an existing <n>.dbtmp -> CURRENT is allowed)"
+  | .unlink .current => "CURRENT unlinked"
+  | .unlink (.log n) => s!"log {n} unlinked while a version that a crash could recover still needs it"
+  | .unlink (.table t) => s!"table {t} unlinked while a version that a crash could recover still names it"
+  | .unlink (.manifest k) => s!"MANIFEST {k} unlinked while a CURRENT that a crash could recover names it"
+  | _ => "?"
 
-/-- checks that need the state *after* the event (the rename that switches CURRENT) -/
-def Mon.post (m : Mon) : Ev → Mon
+def Mon.check (m : Mon) (e : Ev) : Mon := if m.pre e then m else fail m (m.explain e)
+
+/-- checks that need the state *after* the event (the rename that switches CURRENT).
+    O4: the pointer file is complete and fsynced, the MANIFEST it names is fsynced and carries a log number,
+        every table that MANIFEST names is present and complete, and its log number is not below the log
+        number of any version a crash could still fall back to. -/
+def postOk (w : World) : Ev → Bool
   | .rename _ .current =>
-    -- O4: the pointer file is complete and fsynced, the MANIFEST it names is fsynced and has a snapshot record,
-    --     and every table that MANIFEST names is present and complete
+    match bodyOf w .current with
+    | some cb =>
+      match cb.recs with
+      | [.ptr k] =>
+        cb.synced == 1 &&
+        (match bodyOf w (.manifest k) with
+         | some mb =>
+           mb.synced == mb.recs.length &&
+           (match (versionOf mb.recs).logNum with
+            | some ln =>
+              (versionOf mb.recs).tables.all (tableOk w) &&
+              (candidates w).all (candLogLe ln)
+            | none => false)
+         | none => false)
+      | _ => false
+    | none => false
+  | _ => true
+
+def Mon.postOk (m : Mon) (e : Ev) : Bool := Lcdb.Disk.postOk m.w e
+
+def Mon.explainPost (m : Mon) : Ev → String
+  | .rename _ .current =>
     match bodyOf m.w .current with
     | some cb =>
       match cb.recs with
       | [.ptr k] =>
-        if cb.synced != 1 then fail m "CURRENT replaced by a pointer file that was not fsynced"
+        if cb.synced != 1 then "CURRENT replaced by a pointer file that was not fsynced"
         else match bodyOf m.w (.manifest k) with
           | some mb =>
-            if mb.synced != mb.recs.length then fail m s!"CURRENT switched to MANIFEST {k} before it was fsynced"
-            else if (versionOf mb.recs).logNum.isNone then fail m s!"CURRENT switched to MANIFEST {k} that has no log number"
-            else m
-          | none => fail m s!"CURRENT names MANIFEST {k} which does not exist"
-      | _ => fail m "CURRENT replaced by a file that is not a single pointer record"
-    | none => m
-  | _ => m
+            if mb.synced != mb.recs.length then s!"CURRENT switched to MANIFEST {k} before it was fsynced"
+            else match (versionOf mb.recs).logNum with
+              | none => s!"CURRENT switched to MANIFEST {k} that has no log number"
+              | some _ =>
+                if !(versionOf mb.recs).tables.all (tableOk m.w) then s!"CURRENT switched to MANIFEST {k} naming a table that is missing or incomplete"
+                else s!"CURRENT switched to MANIFEST {k} whose log number is below that of a version a crash could recover"
+          | none => s!"CURRENT names MANIFEST {k} which does not exist"
+      | _ => "CURRENT replaced by a file that is not a single pointer record"
+    | none => "CURRENT missing after rename"
+  | _ => "?"
+
+def Mon.post (m : Mon) (e : Ev) : Mon := if m.postOk e then m else fail m (m.explainPost e)
+
+/-- the strict form of O3 (see `Mon.okDel`) -/
+def delOk (w : World) : Ev → Bool
+  | .unlink (.log n) =>
+    (candidates w).all (candLogBelow n)
+  | _ => true
+
+def Mon.delOk (m : Mon) (e : Ev) : Bool := Lcdb.Disk.delOk m.w e
+
+/-- bookkeeping: which log a batch was appended to -/
+def newLogOf (logOf : List (Nat × Nat)) : Ev → List (Nat × Nat)
+  | .append (.log n) (.batch b) => (b, n) :: logOf
+  | _ => logOf
 
 def Mon.step (m : Mon) (e : Ev) : Mon :=
   let m1 := m.check e
   let m2 : Mon := { m1 with w := m1.w.step e,
-                            logOf := match e with
-                              | .append (.log n) (.batch b) => (b, n) :: m1.logOf
-                              | _ => m1.logOf }
+                            okDel := m1.okDel && m.delOk e,
+                            logOf := newLogOf m1.logOf e }
   m2.post e
 
 def monitor (t : List Ev) : Mon := t.foldl Mon.step {}
@@ -274,6 +436,11 @@ def monitor (t : List Ev) : Mon := t.foldl Mon.step {}
 def Conforms (t : List Ev) : Prop := (monitor t).ok = true
 
 instance (t : List Ev) : Decidable (Conforms t) := by unfold Conforms; infer_instance
+
+/-- `Conforms` plus the strict deletion rule -/
+def ConformsStrict (t : List Ev) : Prop := (monitor t).ok = true ∧ (monitor t).okDel = true
+
+instance (t : List Ev) : Decidable (ConformsStrict t) := by unfold ConformsStrict; infer_instance
 
 /-- batches acknowledged with sync=1 in the trace -/
 def ackedSync (t : List Ev) : List Nat := t.filterMap fun | .ack b true => some b | _ => none
